@@ -28,20 +28,21 @@ def reactionFlags : List Bool :=
   [Gen.bufVersionQuery, Gen.bufPresentationRequest, Gen.bufReboot, Gen.bufReqReply, Gen.bufIdResponse,
    Gen.bufConfig, Gen.bufTime, Gen.bufDiscover, Gen.bufFlush]
 
-/-- Everything the receive path can do to the world, as `R`-steps. -/
-structure StepRel (R : W → W → Prop) : Prop where
+/-- Everything handling the message `m` can do to the world, as `R`-steps. -/
+structure StepRel (R : W → W → Prop) (m : Msg) : Prop where
   pre : PreO R
   write : ∀ line, Rel R (transportWrite line)
   setNode : ∀ id n, Rel R (AioMySensors.setNode id n)
-  erase : ∀ k bm, Rel R (eraseMod k bm)
-  mark : ∀ pm, Rel R (markMod pm)
-  unmark : ∀ m, Rel R (prePresentation20 m)
-  version : ∀ payload v, getProtocolE payload = .ok v → Rel R (versionMod payload v)
+  /-- the flush removes entries of the woken node only -/
+  erase : ∀ k bm, bm.node = m.node → Rel R (eraseMod k bm)
+  mark : Rel R (markMod (presentationRequest m.node))
+  unmark : Rel R (prePresentation20 m)
+  version : ∀ v, getProtocolE m.payload = .ok v → Rel R (versionMod m.payload v)
 
-variable {R : W → W → Prop}
+variable {R : W → W → Prop} {m : Msg}
 
-theorem rel_gwSend (hR : StepRel R) (m : Msg) (b : Bool) (hpark : b = true → Rel R (parkMod m)) :
-    Rel R (gwSend m b) := by
+theorem rel_gwSend (hR : StepRel R m) (sm : Msg) (b : Bool) (hpark : b = true → Rel R (parkMod sm)) :
+    Rel R (gwSend sm b) := by
   unfold gwSend
   refine Rel.bind hR.pre (Rel.getSt hR.pre) fun st => ?_
   split
@@ -59,11 +60,11 @@ theorem rel_gwSend (hR : StepRel R) (m : Msg) (b : Bool) (hpark : b = true → R
 /-- What the generic traversal needs to know about parking at the reaction call sites. -/
 def ParkOK (R : W → W → Prop) : Prop := ∀ b ∈ reactionFlags, b = true → ∀ m, Rel R (parkMod m)
 
-theorem rel_gwSend_site (hR : StepRel R) (hp : ParkOK R) (m : Msg) (b : Bool) (hb : b ∈ reactionFlags) :
-    Rel R (gwSend m b) :=
-  rel_gwSend hR m b fun h => hp b hb h m
+theorem rel_gwSend_site (hR : StepRel R m) (hp : ParkOK R) (sm : Msg) (b : Bool) (hb : b ∈ reactionFlags) :
+    Rel R (gwSend sm b) :=
+  rel_gwSend hR sm b fun h => hp b hb h sm
 
-theorem rel_requireNode (hR : StepRel R) (id : Int) : Rel R (requireNode id) := by
+theorem rel_requireNode (hR : StepRel R m) (id : Int) : Rel R (requireNode id) := by
   unfold requireNode
   refine Rel.bind hR.pre (Rel.getSt hR.pre) fun st => ?_
   split
@@ -80,13 +81,13 @@ macro "rel_auto" hR:ident hp:ident : tactic => `(tactic| repeat' (first
   | split
   | dsimp only))
 
-theorem rel_wrapMissingPV (hR : StepRel R) (hp : ParkOK R) {inner : Msg → M Msg} (m : Msg) (hi : Rel R (inner m)) :
+theorem rel_wrapMissingPV (hR : StepRel R m) (hp : ParkOK R) {inner : Msg → M Msg} (hi : Rel R (inner m)) :
     Rel R (wrapMissingPV inner m) := by
   unfold wrapMissingPV
   refine Rel.tryFinally hR.pre hi fun r => ?_
   cases r <;> rel_auto hR hp
 
-theorem rel_wrapMissingNC (hR : StepRel R) (hp : ParkOK R) {inner : Msg → M Msg} (m : Msg) (hi : Rel R (inner m)) :
+theorem rel_wrapMissingNC (hR : StepRel R m) (hp : ParkOK R) {inner : Msg → M Msg} (hi : Rel R (inner m)) :
     Rel R (wrapMissingNC inner m) := by
   unfold wrapMissingNC
   refine Rel.tryCatch hR.pre hi fun e y hy => ?_
@@ -97,23 +98,26 @@ theorem rel_wrapMissingNC (hR : StepRel R) (hp : ParkOK R) {inner : Msg → M Ms
     split
     · exact Rel.raise hR.pre _
     · refine Rel.seq hR.pre (rel_gwSend_site hR hp _ _ (by simp [reactionFlags])) ?_
-      exact Rel.seq hR.pre (hR.mark _) (Rel.raise hR.pre _)
+      exact Rel.seq hR.pre hR.mark (Rel.raise hR.pre _)
   · exact absurd hy (by simp)
 
-theorem rel_flushList (hR : StepRel R) (hp : ParkOK R) (l : List (Key × Msg)) : Rel R (flushList l) := by
+theorem rel_flushList (hR : StepRel R m) (hp : ParkOK R) (l : List (Key × Msg)) (hl : ∀ e ∈ l, e.2.node = m.node) :
+    Rel R (flushList l) := by
   induction l with
   | nil => exact Rel.pure hR.pre _
   | cons x xs ih =>
     obtain ⟨k, bm⟩ := x
     unfold flushList
-    exact Rel.seq hR.pre (rel_gwSend_site hR hp _ _ (by simp [reactionFlags])) (Rel.seq hR.pre (hR.erase k bm) ih)
+    exact Rel.seq hR.pre (rel_gwSend_site hR hp _ _ (by simp [reactionFlags]))
+      (Rel.seq hR.pre (hR.erase k bm (hl (k, bm) (by simp))) (ih fun e he => hl e (by simp [he])))
 
-theorem rel_flush (hR : StepRel R) (hp : ParkOK R) (m : Msg) : Rel R (flush m) := by
+theorem rel_flush (hR : StepRel R m) (hp : ParkOK R) : Rel R (flush m) := by
   unfold flush
   refine Rel.bind hR.pre (Rel.getSt hR.pre) fun st => ?_
-  exact Rel.seq hR.pre (rel_flushList hR hp _) (Rel.pure hR.pre _)
+  refine Rel.seq hR.pre (rel_flushList hR hp _ fun e he => ?_) (Rel.pure hR.pre _)
+  simpa using (List.mem_filter.mp he).2
 
-theorem rel_hVersion (hR : StepRel R) (m : Msg) : Rel R (hVersion m) := ⟨fun w => by
+theorem rel_hVersion (hR : StepRel R m) : Rel R (hVersion m) := ⟨fun w => by
   unfold hVersion AioMySensors.convertExn
   cases h : getProtocolE m.payload with
   | error c =>
@@ -121,16 +125,16 @@ theorem rel_hVersion (hR : StepRel R) (m : Msg) : Rel R (hVersion m) := ⟨fun w
     · simpa [M.bind, M.raise, hc] using hR.pre.refl w
     · simpa [M.bind, M.raise, hc] using hR.pre.refl w
   | ok v =>
-    have := (hR.version m.payload v h).step w
+    have := (hR.version v h).step w
     simpa [M.bind, M.pure, M.seq, versionMod, M.modifySt] using this⟩
 
-theorem rel_runLeaf (hR : StepRel R) (hp : ParkOK R) (env : Env) (b : Body) (f : Msg → M Msg)
-    (hf : runLeaf env b = some f) (m : Msg) : Rel R (f m) := by
+theorem rel_runLeaf (hR : StepRel R m) (hp : ParkOK R) (env : Env) (b : Body) (f : Msg → M Msg)
+    (hf : runLeaf env b = some f) : Rel R (f m) := by
   cases b <;> simp only [runLeaf, Option.some.injEq] at hf <;> try (exact absurd hf (by simp))
   all_goals subst hf
   · unfold hSet; rel_auto hR hp
   · unfold hReq; rel_auto hR hp
-  · exact rel_hVersion hR m
+  · exact rel_hVersion hR
   · unfold hIdRequest; rel_auto hR hp
   · unfold hConfig; rel_auto hR hp
   · unfold hTime; rel_auto hR hp
@@ -142,16 +146,16 @@ theorem rel_runLeaf (hR : StepRel R) (hp : ParkOK R) (env : Env) (b : Body) (f :
   · unfold hHeartbeat20 heartbeatValue
     refine Rel.bind hR.pre (rel_requireNode hR _) fun node => ?_
     refine Rel.bind hR.pre (Rel.convertExn hR.pre _ _ _) fun hb => ?_
-    exact Rel.seq hR.pre (hR.setNode _ _) (rel_flush hR hp m)
+    exact Rel.seq hR.pre (hR.setNode _ _) (rel_flush hR hp)
   · unfold hHeartbeat22 heartbeatValue; rel_auto hR hp
   · unfold hPreSleep22
     refine Rel.bind hR.pre (rel_requireNode hR _) fun node => ?_
-    exact Rel.seq hR.pre (hR.setNode _ _) (rel_flush hR hp m)
+    exact Rel.seq hR.pre (hR.setNode _ _) (rel_flush hR hp)
 
-theorem rel_runPre (hR : StepRel R) (b : Body) (m : Msg) : Rel R (runPre b m) := by
-  cases b <;> first | exact hR.unmark m | exact Rel.raise hR.pre _
+theorem rel_runPre (hR : StepRel R m) (b : Body) : Rel R (runPre b m) := by
+  cases b <;> first | exact hR.unmark | exact Rel.raise hR.pre _
 
-theorem rel_applyLayers (hR : StepRel R) (hp : ParkOK R) (ls : List Layer) (base : Msg → M Msg) (m : Msg)
+theorem rel_applyLayers (hR : StepRel R m) (hp : ParkOK R) (ls : List Layer) (base : Msg → M Msg)
     (hb : Rel R (base m)) : Rel R (applyLayers ls base m) := by
   induction ls with
   | nil => simpa [applyLayers] using hb
@@ -159,13 +163,13 @@ theorem rel_applyLayers (hR : StepRel R) (hp : ParkOK R) (ls : List Layer) (base
     cases l with
     | wrap w =>
       cases w with
-      | missingPV => simpa [applyLayers] using rel_wrapMissingPV hR hp m ih
-      | missingNC => simpa [applyLayers] using rel_wrapMissingNC hR hp m ih
+      | missingPV => simpa [applyLayers] using rel_wrapMissingPV hR hp ih
+      | missingNC => simpa [applyLayers] using rel_wrapMissingNC hR hp ih
     | pre b =>
       simp only [applyLayers]
-      exact Rel.seq hR.pre (rel_runPre hR b m) ih
+      exact Rel.seq hR.pre (rel_runPre hR b) ih
 
-theorem rel_runTyped (hR : StepRel R) (hp : ParkOK R) (env : Env) (och : Option Chain) (m : Msg) :
+theorem rel_runTyped (hR : StepRel R m) (hp : ParkOK R) (env : Env) (och : Option Chain) :
     Rel R (runTyped env och m) := by
   cases och with
   | none => exact Rel.pure hR.pre _
@@ -173,9 +177,9 @@ theorem rel_runTyped (hR : StepRel R) (hp : ParkOK R) (env : Env) (och : Option 
     simp only [runTyped, runInner]
     cases hf : runLeaf env ch.base with
     | none => exact Rel.raise hR.pre _
-    | some f => exact rel_applyLayers hR hp _ f m (rel_runLeaf hR hp env _ f hf m)
+    | some f => exact rel_applyLayers hR hp _ f (rel_runLeaf hR hp env _ f hf)
 
-theorem rel_runBase (hR : StepRel R) (hp : ParkOK R) (env : Env) (v : Ver) (b : Body) (m : Msg) :
+theorem rel_runBase (hR : StepRel R m) (hp : ParkOK R) (env : Env) (v : Ver) (b : Body) :
     Rel R (runBase env v b m) := by
   cases b
   case presentation14 =>
@@ -183,57 +187,57 @@ theorem rel_runBase (hR : StepRel R) (hp : ParkOK R) (env : Env) (v : Ver) (b : 
     split
     · refine Rel.seq hR.pre (hR.setNode _ _) ?_
       split
-      · exact rel_runTyped hR hp env _ m
+      · exact rel_runTyped hR hp env _
       · exact Rel.pure hR.pre _
     · rel_auto hR hp
   case internal14 =>
     simp only [runBase, hInternal]
     split
     · exact Rel.raise hR.pre _
-    · exact rel_runTyped hR hp env _ m
+    · exact rel_runTyped hR hp env _
   case stream14 =>
     simp only [runBase, hStream]
     refine Rel.bind hR.pre (rel_requireNode hR _) fun _ => ?_
     split
     · exact Rel.raise hR.pre _
-    · exact rel_runTyped hR hp env _ m
+    · exact rel_runTyped hR hp env _
   case presentation20 => exact Rel.raise hR.pre _
-  case set14 => exact rel_runLeaf hR hp env .set14 _ rfl m
-  case req14 => exact rel_runLeaf hR hp env .req14 _ rfl m
-  case iVersion14 => exact rel_runLeaf hR hp env .iVersion14 _ rfl m
-  case iIdRequest14 => exact rel_runLeaf hR hp env .iIdRequest14 _ rfl m
-  case iConfig14 => exact rel_runLeaf hR hp env .iConfig14 _ rfl m
-  case iTime14 => exact rel_runLeaf hR hp env .iTime14 _ rfl m
-  case iBatteryLevel14 => exact rel_runLeaf hR hp env .iBatteryLevel14 _ rfl m
-  case iSketchName14 => exact rel_runLeaf hR hp env .iSketchName14 _ rfl m
-  case iSketchVersion14 => exact rel_runLeaf hR hp env .iSketchVersion14 _ rfl m
-  case iGatewayReady20 => exact rel_runLeaf hR hp env .iGatewayReady20 _ rfl m
-  case iDiscoverResponse20 => exact rel_runLeaf hR hp env .iDiscoverResponse20 _ rfl m
-  case iHeartbeatResponse20 => exact rel_runLeaf hR hp env .iHeartbeatResponse20 _ rfl m
-  case iHeartbeatResponse22 => exact rel_runLeaf hR hp env .iHeartbeatResponse22 _ rfl m
-  case iPreSleepNotification22 => exact rel_runLeaf hR hp env .iPreSleepNotification22 _ rfl m
+  case set14 => exact rel_runLeaf hR hp env .set14 _ rfl
+  case req14 => exact rel_runLeaf hR hp env .req14 _ rfl
+  case iVersion14 => exact rel_runLeaf hR hp env .iVersion14 _ rfl
+  case iIdRequest14 => exact rel_runLeaf hR hp env .iIdRequest14 _ rfl
+  case iConfig14 => exact rel_runLeaf hR hp env .iConfig14 _ rfl
+  case iTime14 => exact rel_runLeaf hR hp env .iTime14 _ rfl
+  case iBatteryLevel14 => exact rel_runLeaf hR hp env .iBatteryLevel14 _ rfl
+  case iSketchName14 => exact rel_runLeaf hR hp env .iSketchName14 _ rfl
+  case iSketchVersion14 => exact rel_runLeaf hR hp env .iSketchVersion14 _ rfl
+  case iGatewayReady20 => exact rel_runLeaf hR hp env .iGatewayReady20 _ rfl
+  case iDiscoverResponse20 => exact rel_runLeaf hR hp env .iDiscoverResponse20 _ rfl
+  case iHeartbeatResponse20 => exact rel_runLeaf hR hp env .iHeartbeatResponse20 _ rfl
+  case iHeartbeatResponse22 => exact rel_runLeaf hR hp env .iHeartbeatResponse22 _ rfl
+  case iPreSleepNotification22 => exact rel_runLeaf hR hp env .iPreSleepNotification22 _ rfl
 
-theorem rel_dispatch (hR : StepRel R) (hp : ParkOK R) (env : Env) (v : Ver) (m : Msg) : Rel R (dispatch env v m) := by
+theorem rel_dispatch (hR : StepRel R m) (hp : ParkOK R) (env : Env) (v : Ver) : Rel R (dispatch env v m) := by
   unfold dispatch
   split
   · exact Rel.raise hR.pre _
-  · exact rel_applyLayers hR hp _ _ m (rel_runBase hR hp env v _ m)
+  · exact rel_applyLayers hR hp _ _ (rel_runBase hR hp env v _)
 
 /-- **Generic receive theorem.** One iteration of `listen` only makes `R`-steps. -/
-theorem rel_recv (hR : StepRel R) (hp : ParkOK R) (env : Env) (line : Str) : Rel R (recv env line) := by
+theorem rel_recv (hpre : PreO R) (hR : ∀ m, StepRel R m) (hp : ParkOK R) (env : Env) (line : Str) : Rel R (recv env line) := by
   unfold recv
-  refine Rel.bind hR.pre (Rel.getSt hR.pre) fun st => ?_
+  refine Rel.bind hpre (Rel.getSt hpre) fun st => ?_
   split
-  · exact Rel.raise hR.pre _
-  · exact rel_dispatch hR hp env _ _
+  · exact Rel.raise hpre _
+  · exact rel_dispatch (hR _) hp env _
 
 /-- **Generic send theorem.** -/
-theorem rel_apiSend (hR : StepRel R) (hpark : ∀ m, Rel R (parkMod m)) (obj : Option Msg) (b : Bool) :
+theorem rel_apiSend (hR : StepRel R m) (hpark : ∀ sm, Rel R (parkMod sm)) (obj : Option Msg) (b : Bool) :
     Rel R (apiSend obj b) := by
   unfold apiSend
   cases obj with
   | none => exact Rel.raise hR.pre _
-  | some m => exact rel_gwSend hR m b fun _ => hpark m
+  | some sm => exact rel_gwSend hR sm b fun _ => hpark sm
 
 /-- Parking is an `R`-step wherever it may happen: the simple way to satisfy `ParkOK`. -/
 theorem ParkOK.of_all (h : ∀ m, Rel R (parkMod m)) : ParkOK R := fun _ _ _ m => h m
